@@ -888,7 +888,7 @@ class BasicCriterion(Criterion):
             right=self.right.get_sql(quote_char=quote_char, **kwargs),
         )
         if with_alias:
-            return format_alias_sql(sql, self.alias, **kwargs)
+            return format_alias_sql(sql, self.alias, quote_char=quote_char, **kwargs)
         return sql
 
 
